@@ -37,6 +37,19 @@ func wUnionOwnDisc(required, nullable bool) J {
 	return wDoc(J{}, J{"schemas": J{"Cat": member(), "Dog": member(), "Pet": pet}})
 }
 
+func wSharedTypeName(inline J) J {
+	member := func() J {
+		c := J{"x-go-type-name": "Labels"}
+		for k, v := range inline {
+			c[k] = v
+		}
+		return c
+	}
+	return wDoc(J{}, J{"schemas": J{
+		"Order":   J{"type": "object", "properties": J{"id": J{"type": "string"}, "labels": member()}},
+		"Invoice": J{"type": "object", "properties": J{"number": J{"type": "integer"}, "labels": member()}}}})
+}
+
 func wDoc(paths J, comps J) J {
 	d := J{"openapi": "3.0.3", "info": J{"title": "w", "version": "1"}, "paths": paths}
 	if comps != nil {
@@ -124,6 +137,11 @@ func c01Witnesses() []c01Witness {
 			Mod: func(c *codegen.Configuration) { c.OutputOptions.NullableType = true }},
 		{Name: "union-own-discriminator-optional-nullable-type", Doc: wUnionOwnDisc(false, true),
 			Mod: func(c *codegen.Configuration) { c.OutputOptions.NullableType = true }},
+		// one inline schema under one x-go-type-name in two places: declared once (GenerateTypes folds equal definitions),
+		// so its methods must be generated once too — additional properties, a union, a union with additional properties
+		{Name: "shared-type-name-additional-properties", Doc: wSharedTypeName(J{"type": "object", "properties": J{"owner": J{"type": "string"}}, "additionalProperties": J{"type": "string"}})},
+		{Name: "shared-type-name-union", Doc: wSharedTypeName(J{"oneOf": []interface{}{J{"type": "string"}, J{"type": "integer"}}})},
+		{Name: "shared-type-name-union-additional-properties", Doc: wSharedTypeName(J{"type": "object", "oneOf": []interface{}{J{"type": "object", "properties": J{"a": J{"type": "string"}}}, J{"type": "object", "properties": J{"b": J{"type": "integer"}}}}, "additionalProperties": J{"type": "string"}})},
 		{Name: "leading-digit-schema-with-nested-map",
 			Doc: wDoc(J{}, J{"schemas": J{"1st": objWith(J{"count": J{"type": "object", "properties": J{"n": J{"type": "string"}}, "additionalProperties": J{"type": "integer"}}})}})},
 	}
